@@ -249,8 +249,12 @@ type RunOnceCase struct {
 	Corrupt   int  `json:"corrupt"` // 0 none, 1 newest of peer 1 is undecodable, 2 the only snapshot of the last peer is, 3 every snapshot of every peer is
 	// Vanish: snapshots listed at start-up are removed (cleaned by somebody else) right after the
 	// initial listing: 1 = those of the last peer, 2 = those of every peer
-	Vanish int  `json:"vanish,omitempty"`
-	Late   bool `json:"late"` // a new peer appears after start-up (must not be waited for)
+	Vanish int `json:"vanish,omitempty"`
+	// SlowListing: storage_poll_interval is long (40 ms) compared with the loop\'s own poll interval (1 ms):
+	// what the loop believes about "which instances still exist" is then older than what the downloaders
+	// have found out in the meantime (e.g. that a newest blob is undecodable)
+	SlowListing bool `json:"slow_listing,omitempty"`
+	Late        bool `json:"late"` // a new peer appears after start-up (must not be waited for)
 }
 
 func checkRunOnce(c RunOnceCase, o *vcore.Obs) error {
@@ -259,6 +263,9 @@ func checkRunOnce(c RunOnceCase, o *vcore.Obs) error {
 	b := fault.NewBucket()
 	conf := BaseConfig("a")
 	conf.OnlyOnce = true
+	if c.SlowListing {
+		conf.StoragePollInterval = 40 * time.Millisecond
+	}
 	conf.MemoryDecompressedSnapshots = 2
 	h := b.Handle("a")
 	clock := time.Date(2026, 4, 1, 0, 0, 0, 0, time.UTC)
@@ -361,6 +368,7 @@ func checkRunOnce(c RunOnceCase, o *vcore.Obs) error {
 				return err
 			}
 			o.NonTrivial(c.Peers >= 2 && (c.LoadFails > 0 || c.Corrupt > 0 || c.OwnBlob))
+			o.ClassIf(c.SlowListing, "listing-slower-than-the-loop")
 			o.ClassIf(c.Corrupt > 0, "corrupt-at-startup")
 			o.ClassIf(c.Corrupt == 3 && c.Peers > 0, "every-peer-snapshot-undecodable")
 			o.ClassIf(len(vanishing) > 0, "snapshots-vanish-after-the-initial-listing")
@@ -402,6 +410,7 @@ func TestC16RunOnce(t *testing.T) {
 				OwnBlob: rapid.Bool().Draw(t, "own"), LocalData: rapid.Bool().Draw(t, "local"), LoadFails: rapid.SampledFrom([]int{0, 0, 1, 3}).Draw(t, "lf"),
 				Corrupt: rapid.SampledFrom([]int{0, 0, 1, 2, 3}).Draw(t, "corrupt"), Late: rapid.IntRange(0, 2).Draw(t, "late") == 0,
 				Vanish: rapid.SampledFrom([]int{0, 0, 0, 1, 2}).Draw(t, "vanish")}
+			c.SlowListing = rapid.IntRange(0, 2).Draw(t, "slow_listing") == 0
 			if rapid.IntRange(0, 3).Draw(t, "bare") == 0 {
 				// a restore-style job: empty LMDB, nothing of its own in the bucket, nobody else publishing
 				c.OwnBlob, c.LocalData, c.Late = false, false, false
